@@ -261,7 +261,7 @@ impl Rule {
             .map(|f| {
                 let outer_name = format_ident!("{}_{}", self.name, f.name);
                 let inner_name = format_ident!("Parsed_{}", f.name);
-                quote!(use super::#outer_name as #inner_name;)
+                quote!(use super::super::#outer_name as #inner_name;)
             })
             .collect();
         let field_names: Vec<Ident> = fields.iter().map(|f| safe_ident(f.name)).collect();
